@@ -132,6 +132,8 @@ type Guard struct {
 	Assume  string // invariant of stored records taken for granted (case split over its DNF); recorded in the evidence
 	Why     string
 	Rule    string
+	// PathsOverride evaluates the obligation on this path set instead of the package's default enumeration.
+	PathsOverride []*Path
 }
 
 // SiteKey builds the line-free construct key of a site.
@@ -243,7 +245,13 @@ func (c *Ctx) Guard(g Guard) *OblResult {
 		res.Violations++
 		c.R.Violate(v)
 	}
-	paths, err := c.A.Paths(g.Pkg)
+	var paths []*Path
+	var err error
+	if g.PathsOverride != nil {
+		paths = g.PathsOverride
+	} else {
+		paths, err = c.A.Paths(g.Pkg)
+	}
 	if err != nil {
 		fail(&Violation{Key: g.Pkg, Msg: err.Error(), Undecided: true})
 		return res
@@ -685,6 +693,8 @@ type Outcome struct {
 	// is required to look at something it may not look at today. Only for clauses about values
 	// that exist on every path (never about loop elements).
 	Consistent bool
+	// PathsOverride evaluates the obligation on this path set instead of the package's default enumeration.
+	PathsOverride []*Path
 }
 
 // Outcome evaluates a K-enum(outcome) obligation.
@@ -710,7 +720,13 @@ func (c *Ctx) Outcome(g Outcome) *OblResult {
 		res.Violations++
 		c.R.Violate(v)
 	}
-	paths, err := c.A.Paths(g.Pkg)
+	var paths []*Path
+	var err error
+	if g.PathsOverride != nil {
+		paths = g.PathsOverride
+	} else {
+		paths, err = c.A.Paths(g.Pkg)
+	}
 	if err != nil {
 		fail(&Violation{Key: g.Pkg, Msg: err.Error(), Undecided: true})
 		return res
@@ -1109,4 +1125,33 @@ func (c *Ctx) MayCall(g MayCall) *OblResult {
 	}
 	res.Discharged = res.Violations == 0
 	return res
+}
+
+// Reach returns the module functions reachable from root (short name) through statically
+// resolved calls (AST level; calls through interfaces and function values are leaves), and all
+// call sites inside them.
+func (p *Prog) Reach(root string) (map[string]bool, []CallSite) {
+	byFunc := map[string][]CallSite{}
+	for _, cs := range p.CallSites() {
+		byFunc[cs.Func] = append(byFunc[cs.Func], cs)
+	}
+	hasBody := map[string]bool{}
+	for _, fi := range p.Funcs {
+		hasBody[fi.Name()] = true
+	}
+	seen := map[string]bool{root: true}
+	work := []string{root}
+	var sites []CallSite
+	for len(work) > 0 {
+		f := work[len(work)-1]
+		work = work[:len(work)-1]
+		for _, cs := range byFunc[f] {
+			sites = append(sites, cs)
+			if hasBody[cs.Callee] && !seen[cs.Callee] {
+				seen[cs.Callee] = true
+				work = append(work, cs.Callee)
+			}
+		}
+	}
+	return seen, sites
 }
